@@ -176,7 +176,8 @@ class Ctx:
             "cells": dict(sorted(self.cells.items())),
             "inconclusive": self.inconclusive,
             "known_findings_observed": {k: v["n"] for k, v in self.known_hits.items()},
-            "violation_keys": sorted({v["key"] for v in self.violations}),
+            "violation_keys": {k: sum(1 for v in self.violations if v["key"] == k)
+                               for k in sorted({v["key"] for v in self.violations})},
             "floors": {"distinct_nontrivial": self.floor_nontrivial, "evaluations": self.floor_evaluations},
         }
         if self.exhaustive is not None:
